@@ -15,7 +15,7 @@ import (
 
 // c10Vals: JSON spellings of operand values; "" = absent. The second group are number
 // spellings that are not Go's shortest formatting (only used where the property allows).
-var c10Vals = []string{"", "1", "2", "1.5", "-1", `"a"`, `"1"`, "true", "false", "null", "{}", "[1]", `{"a":1}`}
+var c10Vals = []string{"", "1", "2", "1.5", "-1", `"a"`, `"1"`, "true", "false", "null", "{}", "[1]", `{"a":1}`, `{"x":null}`, `{"y":null}`, `[null]`}
 var c10OddNumbers = []string{"1.0", "1e0", "100e-2", "2.000", "0.15e1"}
 
 type c10Job struct {
@@ -85,6 +85,7 @@ func (j *c10Job) RunUnit(i int, c *run.Ctx) {
 			docs[modeFloat] = decodeDoc(docText, modeFloat)
 			docs[modeNumber] = decodeDoc(docText, modeNumber)
 			for _, q := range j.atoms {
+				c.Tick()
 				if nOdd > 0 && pathVsPathEq(q) {
 					continue // the property restricts path==path to shortest spellings
 				}
@@ -163,7 +164,7 @@ func init() {
 			"relational oracle: the json.Number decoding of the same JSON text selects the same members as the float64 decoding; number spellings other than Go's shortest ('1.0', '1e0', '100e-2', '2.000', '0.15e1') are used except where two paths are compared with == / !=",
 		},
 		Bounds: map[string]string{
-			"quick":    "219 atoms x operand values from {absent,1,2,1.5,-1,\"a\",\"1\",true,false,null,{},[1],{\"a\":1}} plus 5 odd number spellings for each of @.a, @.b, $.a, $.b (at most one odd spelling per document, or @.a and $.a both odd) x 2 decodings",
+			"quick":    "219 atoms x operand values from {absent,1,2,1.5,-1,\"a\",\"1\",true,false,null,{},[1],{\"a\":1},{\"x\":null},{\"y\":null},[null]} plus 5 odd number spellings for each of @.a, @.b, $.a, $.b (at most one odd spelling per document, or @.a and $.a both odd) x 2 decodings",
 			"thorough": "same as quick (the space is enumerated completely in both tiers)",
 		},
 		New: newC10,
